@@ -13,14 +13,14 @@ FIVE = ("Point", "Line", "Plane", "Polygon", "Polyhedron")
 
 def consts(seed, depth, nshard):
     return {"S": 2, "SEED": seed % 1000, "NSHARD": nshard, "ObjChoices": "<- MCObjChoices", "ArgPts": "<- MCArgPts",
-            "MoveVecs": "<- MCMoveVecs", "Alphabet": {"Move", "Copy", "Query", "Mutate"}, "QueryOps": "<- AllOps",
+            "MoveVecs": "<- MCMoveVecs", "Alphabet": {"Move", "Copy", "Query", "Mutate", "Neg", "MoveKeep"}, "QueryOps": "<- AllOps",
             "MaxDepth": depth, "Probes": "<- MCProbes"}
 
 
 def run(res, pool, tier, seed):
     if tier == "quick":
         jobs = [dict(module="MC_Pure.tla", tag="bfs2", invariants=["DispInv", "ValidInv", "Emit"], properties=["QueryPure", "OwnInv"],
-                     constants=consts(seed, 2, 40), timeout=1500, batch=50),
+                     constants=consts(seed, 2, 8), timeout=1500, batch=50, cfg_extra=["CONSTRAINT FirstNotQuery"]),
                 dict(module="MC_Pure.tla", tag="sim5", invariants=["Emit"], constants=consts(seed, 5, 1), timeout=600, batch=50,
                      simulate="num=600", depth=6, tlc_seed=seed + 5, workers=8, spec="SpecSim")]
     else:
@@ -229,7 +229,7 @@ def replay_case(case, tag, rng, tier):
             why = run_query(e["op"], cur[i], cur[j], objs[i], objs[j], e["exp"], pose)
             if why:
                 bad("C20.answer", "query answer differs from the exact one: " + why, n, {"kinds": [cur[i]["k"], cur[j]["k"]]})
-            changed = [k for k in range(len(objs)) if snap(objs[k]) != before_o[k]] + [100 + k for k in range(len(args)) if snap(args[k]) != before_a[k]]
+            changed = [k for k in range(len(before_o)) if snap(objs[k]) != before_o[k]] + [100 + k for k in range(len(args)) if snap(args[k]) != before_a[k]]
             if changed:
                 bad("C20.pure", "query changed observable state of objects %r" % changed, n, {"kinds": [cur[i]["k"], cur[j]["k"]]})
         if (G.get_eps(), G.get_sig_figures()) != cfg0:
@@ -248,6 +248,24 @@ def replay_case(case, tag, rng, tier):
             changed = [k for k in range(len(objs)) if k != i and snap(objs[k]) != before_o[k]]
             if changed:
                 bad("C20.own_move", "moving object %d changed objects %r that were built from it" % (i, changed), n, {"kind": cur[i]["k"]})
+        elif e["act"] in ("Neg", "MoveKeep"):
+            # a new live object derived from a live one: it must be independent of its source from now on
+            i = e["id"] - 1
+            if e["act"] == "Neg":
+                new, exc = call(lambda: -objs[i])
+                val = e["val"]
+            else:
+                new, exc = call(objs[i].move, vec(e["v"], pose, num))
+                cur[i] = e["post"]
+                val = e["post"]
+            if exc is not None:
+                bad("C20.derive_raises", "%s raised %s" % (e["act"], exc["cls"]), n)
+                return out
+            changed = [k for k in range(len(before_o)) if (k != i or e["act"] == "Neg") and snap(objs[k]) != before_o[k]]
+            if changed:
+                bad("C20.own_move", "%s of object %d changed objects %r" % (e["act"], i, changed), n, {"kind": cur[i]["k"]})
+            objs.append(new)
+            cur.append(val)
         elif e["act"] == "Mutate":
             k = e["k"] - 1
             d = vec(e["v"], pose, num)
